@@ -1278,4 +1278,4 @@ func c06Run(c *Case) (string, []Fail) {
 
 var _ = bytes.Equal
 
-func init() { register(&Prop{ID: "C06", Gen: c06Gen, Run: c06Run}) }
+func init() { register(&Prop{ID: "C06", Gen: c06Gen, Run: c06Run, Child: c06Child}) }
